@@ -106,6 +106,15 @@ theorem C08_no_binding_state (style : Style) (before after : List (List Char × 
   | nil => simp [cursorRun]
   | cons x xs ih => obtain ⟨c', a'⟩ := x; simpa [cursorRun] using ih
 
+/-- **Re-using the parameter container**: binding the same dict / tuple / list again gives, every time, exactly what
+    binding it once gives — `_rewrite_with_params` returns new values and leaves the caller's container as it was
+    (in the model the arguments are immutable; the correspondence checks the caller's object after every call). -/
+theorem C08_same_container_rebinding (style : Style) (c : List Char) (a : Args) (times : Nat) :
+    rebind style c a times = List.replicate times (rewrite style c a) := by
+  induction times with
+  | zero => rfl
+  | succ n ih => simpa [rebind, List.replicate_succ, cursorRun] using ih
+
 /-- values that compare equal in Python but have different types have different literals -/
 theorem C08_typed_literals :
     (Val.bool true).lit ≠ (Val.num "1.0".toList).lit ∧ (Val.bool false).lit ≠ (Val.num "0.0".toList).lit ∧
@@ -169,6 +178,13 @@ theorem C08_qmark_count_partial (e : QExpr) (h : e.dupFree = true) (n : Nat) :
   simp [qmarkAccepts, this]
 
 example : (QExpr.app (.dup .const) (.app .ph .ph)).dupFree = true := by decide
+
+/-- a statement that is not exploded (one engine statement carrying all `k` placeholders) accepts exactly `k` values -/
+theorem C08_qmark_unexploded (k n : Nat) : explodeAccepts [k] n = (k == n) := by simp [explodeAccepts]
+
+/-- known finding C08/qmark-merge: a MERGE with three placeholders (ON condition, UPDATE SET, INSERT VALUES) is executed
+    as statements holding 1, 2, 1 and 0 of them, each with all three values: none is accepted -/
+theorem finding_C08_qmark_merge : explodeAccepts [1, 2, 1, 0] 3 = false ∧ ([1, 2, 1, 0] : List Nat).all (· ≤ 3) = true := by decide
 
 /-! ## The full statement, and where the pinned code falls short (recorded findings) -/
 
